@@ -448,3 +448,7 @@ def run(ctx):
         o = dict(o)
         o["rule"] = "C04.W1"
         ctx.obligations.append(o)
+    # "none duplicated": a received message is handed either to the waiting requester or to the listeners, never both (C06.P2)
+    from . import c06
+
+    report.share(ctx, "C04.W1", c06.check_routing)
